@@ -36,7 +36,7 @@ def uncps(l):
 def q_method(m):
     return {'fid': m['fid'], 'func': cps(m['func']), 'op': ocps(m.get('op')), 'in': ocps(m.get('in')),
             'out': ocps(m.get('out')), 'suffix': cps(m.get('suffix') or ''),
-            'patterns': [[None if v is None else [cps(a) for a in v], cps(addr)] for v, addr in m.get('patterns') or []],
+            'patterns': [[None if v is None else [cps(a) for a in v], ocps(addr)] for v, addr in m.get('patterns') or []],
             'auxown': bool(m.get('auxown')), 'bare': m.get('bare') in ('bare', 'soaprpc'), 'barearg': bool(m.get('barearg'))}
 
 
@@ -56,6 +56,9 @@ def q_req(r):
         return {'k': k, 'b': list(r[1])}
     if k in ('mnull', 'mtag', 'mkey', 'mrpc', 'mhttp', 'btag'):   # the same ways of naming, with the payload a member
         return q_req((k[1:],) + tuple(r[1:]))                     # method ('self') or a bare method (text) needs
+    if k == 'soap':                                 # a whole SOAP envelope as an element tree
+        enc = lambda t: [ocps(t[0]), cps(t[1]), [enc(c) for c in t[2]]]
+        return {'k': 'soap', 'env': cps(r[1]), 'doc': enc(r[2])}
     if k == 'keys':                                 # a dict document with zero or several keys
         return {'k': 'keys', 'ns': [cps(n) for n in r[1]]}
     if k == 'pkey':                                 # a member method named without its instance (T3 only)
@@ -297,6 +300,14 @@ class Built:
         if r[0] in ('http', 'mhttp'):
             verb, path = r[1], r[2]
             query = r[3] if len(r) > 3 else ''
+        elif r[0] == 'soap':
+            def ser(t):
+                ns, loc, cs = t
+                return '<p:%s xmlns:p="%s">%s</p:%s>' % (loc, ns, ''.join(ser(c) for c in cs), loc) if ns is not None else \
+                    '<%s xmlns="">%s</%s>' % (loc, ''.join(ser(c) for c in cs), loc)
+            body = ser(r[2]).encode('utf8')
+            if p == 'soap12':
+                ctype = 'application/soap+xml; charset=utf-8'
         elif r[0] == 'keys':
             doc = {n: {} for n in r[1]}
             if p == 'json':
@@ -390,6 +401,43 @@ def build_outcome(spec, order):
                'names': [[f, cps(n), cps(ins or ''), cps(on), cps(ons or '')] for f, n, ins, on, ons in b.names()]}
 
 
+SOAP_ENV = {'soap11': 'http://schemas.xmlsoap.org/soap/envelope/', 'soap12': 'http://www.w3.org/2003/05/soap-envelope'}
+SOAP_VARIANTS = ['H1', 'H2', 'H3', 'H4', 'H5', 'H6', 'H7', 'H8', 'H9', 'H10']
+
+
+def soap_request(proto, ns, n, o, variant):
+    """a SOAP envelope whose own Body names `n`, decorated with soap-env elements elsewhere that name `o`"""
+    E = SOAP_ENV[proto]
+    el = lambda name, *cs: (ns, name, tuple(cs))
+    env = lambda *cs: (E, 'Envelope', tuple(cs))
+    hdr = lambda *cs: (E, 'Header', tuple(cs))
+    bdy = lambda *cs: (E, 'Body', tuple(cs))
+    doc = {
+        'H1': env(hdr(el('relay', bdy(el(o)))), bdy(el(n))),                    # a relayed message inside a header block
+        'H2': env(hdr(bdy(el(o))), bdy(el(n))),                                 # a Body directly inside the Header
+        'H3': env(hdr(el('quote', env(hdr(), bdy(el(o))))), bdy(el(n))),        # a whole quoted envelope
+        'H4': env(el('ext', bdy(el(o))), bdy(el(n))),                           # a foreign first block with a Body inside
+        'H5': env(bdy(el(n)), bdy(el(o))),                                      # two Body children: the first counts
+        'H6': env(hdr(el('relay', bdy(el(o))))),                                # no Body of its own
+        'H7': env(hdr(), bdy()),                                                # an empty Body
+        'H8': env(bdy(el(n), el(o))),                                           # two elements in the Body: the first counts
+        'H9': env(hdr(hdr(bdy(el(o)))), hdr(el('x', env(bdy(el(o))))), bdy(el(n))),
+        'H10': env(hdr(el('relay', bdy(el(o), el(n)))), bdy(el(n, bdy(el(o))))),  # a Body nested below the method element
+    }[variant]
+    return ('soap', E, doc)
+
+
+def soap_named(r, tns):
+    """the element that names the method: first child of the Envelope's own Body child (None: there is none)"""
+    E, doc = r[1], r[2]
+    if (doc[0], doc[1]) != (E, 'Envelope'):
+        return None
+    for c in doc[2]:
+        if (c[0], c[1]) == (E, 'Body'):
+            return (c[2][0][0], c[2][0][1]) if c[2] else None
+    return None
+
+
 # ------------------------------------------------------------------------------------ T1 facts
 def _svc(name, methods, aux=False, mod='m'):
     return {'mod': mod, 'name': name, 'aux': aux, 'methods': methods}
@@ -467,6 +515,14 @@ def measure_facts():
     b = Built(W_PLAIN2, [0], 'json')
     f['docSingleKey'] = (b.request(('keys', ['foo', 'bar']))[0] == 'Client.fault' and b.request(('keys', []))[0] == 'Client.fault'
                          and b.request(('keys', ['foo']))[0] == ok)
+    b = Built(W_NOADDR, [0], 'http')
+    adr = None if b.error else [p_.address for p_ in b.server._http_patterns]
+    f['patternDefault'] = {('/fetch',): 'publicName', ('/get_thing',): 'functionName'}.get(tuple(adr or ()), 'other')
+    sb = []
+    for proto in ('soap11', 'soap12'):
+        b = Built(W_PLAIN2, [0], proto)
+        sb.append(b.request(soap_request(proto, 'tns', 'foo', 'bar', 'H1'))[0])
+    f['soapBody'] = 'directChild' if sb == [{'ran': [1]}] * 2 else ('anyDescendant' if {'ran': [2]} in sb else 'other')
     b = Built(W_PATDUP, [0], 'http')
     f['patternDup'] = 'reject' if b.error == ('transport', 'ValueError') else ('arbitrary' if b.error is None else 'other')
     return f
@@ -481,12 +537,14 @@ W_MEMBER = {'tns': 'tns', 'services': [_svc('A', [{'fid': 1, 'func': 'getDoc', '
             'classes': [{'name': 'Doc', 'methods': [{'fid': 2, 'func': 'rename'}, {'fid': 3, 'func': 'other', 'in': 'doit'}]}]}
 W_MIXED = {'tns': 'tns', 'services': [_svc('A', [{'fid': 1, 'func': 'foo', 'auxown': True}, {'fid': 2, 'func': 'bar'}])]}
 W_PLAIN2 = {'tns': 'tns', 'services': [_svc('A', [{'fid': 1, 'func': 'foo'}, {'fid': 2, 'func': 'bar'}])]}
+W_NOADDR = {'tns': 'tns', 'services': [_svc('Things', [{'fid': 1, 'func': 'get_thing', 'in': 'fetch', 'patterns': [[['GET'], None]]}])]}
 W_WSDLNAME = {'tns': 'tns', 'services': [_svc('A', [{'fid': 1, 'func': 'refresh_wsdl'}, {'fid': 2, 'func': 'wsdl'}])]}
 
 GOOD = {'auxFirst': 'insertFront', 'ifaceDup': 'reject', 'qualify': 'unlessBrace', 'docPrefixesTns': True,
         'emptyIsNotFound': True, 'patternDup': 'reject', 'binNames': 'strictUtf8',
         'wsdlPath': 'dotWsdlSuffix', 'wsdlQuery': 'firstName', 'wsdlGetOnly': True,
-        'memberKeyPrefixed': True, 'mixedAuxRefused': True, 'docSingleKey': True}
+        'memberKeyPrefixed': True, 'mixedAuxRefused': True, 'docSingleKey': True,
+        'patternDefault': 'publicName', 'soapBody': 'directChild'}
 FACT_WITNESS = {
     'auxFirst': ('an auxiliary service listed before the primary service of the same method name',
                  {'spec': W_AUXFIRST, 'order': [0, 1], 'other_order': [1, 0]}),
@@ -508,6 +566,10 @@ FACT_WITNESS = {
     'mixedAuxRefused': ('a service definition with a primary and an auxiliary method must be refused', {'spec': W_MIXED, 'order': [0]}),
     'docSingleKey': ('a JSON document with two keys (naming two methods) must run nothing',
                      {'spec': W_PLAIN2, 'order': [0], 'proto': 'json', 'request': ['keys', ['foo', 'bar']]}),
+    'patternDefault': ("HttpPattern(verb='GET') without an address on get_thing(_in_message_name='fetch') must answer GET /fetch, and GET /get_thing must be not-found",
+                       {'spec': W_NOADDR, 'order': [0], 'proto': 'http', 'request': ['http', 'GET', '/get_thing', '']}),
+    'soapBody': ('a SOAP request for foo whose Header relays a message with a Body naming bar must run foo',
+                 {'spec': W_PLAIN2, 'order': [0], 'proto': 'soap11', 'request': list(soap_request('soap11', 'tns', 'foo', 'bar', 'H1'))}),
     'patternDup': ('one HttpPattern (GET /same) bound to two methods is accepted; which one answers depends on the '
                    'iteration order of a set of id-hashed objects',
                    {'spec': W_PATDUP, 'order': [0], 'proto': 'http', 'request': ['http', 'GET', '/same']}),
@@ -541,12 +603,15 @@ def facts11 : Facts11 where
   memberKeyPrefixed := %s
   mixedAuxRefused := %s
   docSingleKey := %s
+  patternDefault := .%s
+  soapBody := .%s
 
 end SpyneModel.Generated
 ''' % (lean_text(f['requestSuffix']), lean_text(f['responseSuffix']), f['auxFirst'], f['ifaceDup'], f['qualify'],
        b(f['docPrefixesTns']), b(f['emptyIsNotFound']), f['patternDup'], f['binNames'],
        f['wsdlPath'], f['wsdlQuery'], b(f['wsdlGetOnly']),
-       b(f['memberKeyPrefixed']), b(f['mixedAuxRefused']), b(f['docSingleKey']))
+       b(f['memberKeyPrefixed']), b(f['mixedAuxRefused']), b(f['docSingleKey']),
+       f['patternDefault'], f['soapBody'])
 
 
 # ------------------------------------------------------------------------------------ generators
@@ -691,6 +756,10 @@ def gen_spec(rng, fid0, thorough, http=False):
                 taken.append(name)
             if http and not aux and rng.random() < 0.6:
                 m['patterns'] = [[rng.choice(VERBS), gen_address(rng, pool)] for _ in range(rng.choice([1, 1, 2]))]
+                # (the address is a regular expression and hello() does not escape the name: only names without
+                #  regex metacharacters get an address-less pattern, like the explicit addresses - see NOTES)
+                if re.fullmatch(r'[A-Za-z0-9_\-]+', declared_name(m) or '.') and rng.random() < (0.6 if (m.get('op') or m.get('in')) else 0.2):
+                    m['patterns'][0][1] = None                # no address: HttpPattern.hello() fills in the public name
                 if len(m['patterns']) == 1 and rng.random() < 0.4:
                     m['pattern1'] = True                      # `_pattern=` instead of `_patterns=[...]`
             # shapes of the declaration that must not matter for which function a name reaches
@@ -823,6 +892,9 @@ def directed_specs():
     out.append(('patterns-disjoint-verbs', {'tns': 'tns', 'services': [S('A', [f(1, 'foo', patterns=[P(['GET'], '/r')]), f(2, 'bar', patterns=[P(['DELETE'], '/r')])])]}))
     out.append(('patterns-identical', W_PATDUP))
     out.append(('patterns-overlap-verbs', {'tns': 'tns', 'services': [S('A', [f(1, 'foo', patterns=[P(None, '/r')])]), S('B', [f(2, 'bar', patterns=[P(['GET'], '/r')])])]}))
+    out.append(('patterns-no-address', {'tns': 'tns', 'services': [S('Things', [f(1, 'get_thing', patterns=[P(['GET'], None)], **{'in': 'fetch'}), f(2, 'impl', op='list', patterns=[P(None, None)]),
+                                                                                f(3, 'plain', patterns=[P(['GET', 'HEAD'], None), P(['DELETE'], '/del/<x>')])]),
+                                                                   S('Other', [f(4, 'lookup', **{'in': 'get_thing'}), f(5, 'impl2', **{'in': '{%s}impl' % OTHER_NS})])]}))
     out.append(('patterns-aux-ignored', {'tns': 'tns', 'services': [S('A', [f(1, 'foo', patterns=[P(None, '/p/<x>')])]), S('X', [f(2, 'foo')], aux=True)]}))
     return out
 
@@ -899,6 +971,9 @@ def named_by(tab, tns, r):
         return t if t in tab else None
     if r[0] in ('rawkey', 'rawtag', 'keys', 'pkey'):
         return None
+    if r[0] == 'soap':
+        nm_ = soap_named(r, tns)
+        return expected_for(tab, tns, ('tag', nm_[0], nm_[1])) if nm_ else None
     return expected_for(tab, tns, r)
 
 
@@ -980,6 +1055,13 @@ def requests_for(ctx, spec, names, proto, budget):
                     reqs.append(('tag', ns, n))
         if ns_safe(tns):
             reqs += [('rawtag', tns, b) for b in bcand if not any(x in b for x in b'<>/ "\'=&')]
+        if proto in SOAP_ENV and ns_safe(tns):
+            plain = [n for n in safe if n in reg]
+            others = [n for n in plain[1:3]] + [(plain[0] if plain else 'foo') + 'x', 'nosuch']
+            for n in plain[:2]:
+                for o in others[:3]:
+                    if o != n:
+                        reqs += [soap_request(proto, tns, n, o, v) for v in (SOAP_VARIANTS if n == plain[0] and o == others[0] else rng.sample(SOAP_VARIANTS, 3))]
     # member methods (with an instance as payload) and their near misses; bare methods with a text payload
     mcand = []
     for f_, n in members[:4]:
@@ -1077,6 +1159,12 @@ def pattern_requests(ctx, spec):
         for m in s['methods']:
             for v, addr in m.get('patterns') or []:
                 verbs = (v or ['GET']) + ['GET', 'DELETE', 'GETX', 'GE', 'get']
+                if addr is None:
+                    # address-less: the public name answers; the function / operation name must not
+                    for nm_ in dict.fromkeys([declared_name(m) or m['func'], m['func'], m.get('op') or m['func'], m['func'] + 'x']):
+                        if path_safe(nm_):
+                            reqs += [('http', (v or ['GET'])[0], '/' + nm_), ('http', rng.choice(verbs), '/a/' + nm_)]
+                    continue
                 reqs.append(('http', (v or ['GET'])[0], fill(rng, addr)))
                 reqs.append(('http', (v or ['DELETE'])[-1], fill(rng, addr)))
                 for _ in range(3):
@@ -1090,6 +1178,8 @@ def ambiguous_patterns(spec):
     for s in spec['services']:
         for m in s['methods']:
             for v, addr in m.get('patterns') or []:
+                if addr is None:
+                    addr = declared_name(m) or m['func']
                 pats.append((m['fid'], None if v is None else set(v), addr if addr.startswith('/') else '/' + addr))
     res = []
     for (f1, v1, a1), (f2, v2, a2) in itertools.combinations(pats, 2):
@@ -1296,7 +1386,9 @@ def declared_patterns(spec, names):
                 if s['aux'] or m.get('auxown'):
                     continue
                 for v, addr in m.get('patterns') or []:
-                    res.append((HttpPattern(addr, verb=None if v is None else '|'.join(v)), m['fid'], nm.get(m['fid'])))
+                    # a pattern without an address answers to the public name of its method
+                    res.append((HttpPattern(addr if addr is not None else nm.get(m['fid']), verb=None if v is None else '|'.join(v)),
+                                m['fid'], nm.get(m['fid'])))
         _DECL_CACHE[key] = (spec, res)
     return _DECL_CACHE[key][1]
 
@@ -1326,6 +1418,16 @@ def oracle(ctx, spec, order, proto, r, resp, status, tab, amb):
     tns = spec['tns']
     rep = {'spec': spec, 'order': order, 'proto': proto, 'request': [list(x) if isinstance(x, tuple) else x for x in r],
            'got': resp, 'status': status}
+    if r[0] == 'soap':
+        # only the first child of the Envelope's own Body names the method; header content never does
+        ctx.hit('t3:soap-envelope')
+        named = soap_named(r, tns)
+        if named is None:
+            if resp not in ('Client.fault', 'Client.ResourceNotFound'):
+                ctx.hit('t3-fail:soap')
+                ctx.finding('soap-envelope:no-body-ran', '%s envelope without a Body child of its own was answered with %r' % (proto, resp), rep)
+            return
+        r = ('tag', named[0], named[1])
     if r[0] == 'pkey':
         # a member method without the instance it is to run on: nothing may run (spyne answers not-found for the instance)
         ctx.hit('t3:member-without-instance')
